@@ -191,6 +191,7 @@ Section FailedLoad.
   Variable read : token -> option (Q * option token).
   Variable readN : token -> option (N * option token).
   Variable split_at : token -> option (option token).
+  Variable tsize : token -> nat.
 
   Definition leaves_dest {A} (rd : list token -> A -> A * rres token A) : Prop :=
     forall toks dest, status_of (snd (rd toks dest)) <> St_ok -> fst (rd toks dest) = dest.
@@ -208,7 +209,7 @@ Section FailedLoad.
     leaves_dest (read_mdp_policy token read) /\
     leaves_dest (read_pomdp_model token read) /\
     leaves_dest (read_spomdp_model token read readN) /\
-    leaves_dest (read_pomdp_policy token read readN split_at).
+    leaves_dest (read_pomdp_policy token read readN split_at tsize).
   Proof. repeat split; by_commit. Qed.
 
   (* the nested container readers of Utils/IO.cpp as well *)
@@ -238,10 +239,9 @@ Definition x_read (t : xtoken) : option (Q * option xtoken) :=
   match t with XQ q => Some (q, None) | XN n => Some (inject_Z (Z.of_N n), None) | XAt => None end.
 Definition x_readN (t : xtoken) : option (N * option xtoken) :=
   match t with XN n => Some (n, None) | _ => None end.
+Definition x_tsize (t : xtoken) : nat := 1.
 Definition x_split_at (t : xtoken) : option (option xtoken) :=
   match t with XAt => Some None | _ => None end.
-Definition anyQ (q : Q) : Prop := True.
-Definition anyN (n : N) : Prop := True.
 
 Local Open Scope Q_scope.
 Definition ex_model : mdp_model :=
